@@ -86,9 +86,15 @@ class SgzCropper(SgzReader):
         header[8:12] = int_to_bytes(len_xlines)
         header[12:16] = int_to_bytes(len_ilines)
         header[16:20] = np_float_to_bytes_signed(np.int32(self.zslices[zslices_index_range[0]]))
+        first_sample = self.zslices[zslices_index_range[0]]
         if bytes_to_double(header[92:100]) != 0:
             # Sample axis kept as float64 (files converted from ZGY): this is the field the reader uses
-            header[84:92] = double_to_bytes(self.zslices[zslices_index_range[0]])
+            header[84:92] = double_to_bytes(first_sample)
+        elif first_sample != int(first_sample) and len(self.zslices) > 1:
+            # The integer field holds whole milliseconds only: a crop starting between two of them
+            # (sub-millisecond sampling) records its sample axis in the float64 fields instead
+            header[84:92] = double_to_bytes(first_sample)
+            header[92:100] = double_to_bytes(1000.0 * (self.zslices[1] - self.zslices[0]))
         header[20:24] = np_float_to_bytes_signed(np.int32(self.xlines[xline_index_range[0]]))
         header[24:28] = np_float_to_bytes_signed(np.int32(self.ilines[iline_index_range[0]]))
         header[56:60] = int_to_bytes(compressed_data_length_diskblocks)
